@@ -156,7 +156,8 @@ def newton_raphson(net, funct, mode, solver_vars, tols, pit_names, iter_name):
             errors[var].append(np.max(np.abs(dval)) if len(dval) else 0)
         finalize_iteration(
             net, niter, residual_norm, nonlinear_method, errors=errors, tols=tols, tol_res=tol_res,
-            vals_old=vals_old, solver_vars=solver_vars, pit_names=pit_names, filtered=filtered
+            vals_old=vals_old, solver_vars=solver_vars, pit_names=pit_names, filtered=filtered,
+            mode=mode
         )
         if _verif.ENABLED:
             _verif.emit("nr_iter", net=net, mode=mode, niter=niter, alpha_used=_verif_alpha_used,
@@ -457,7 +458,7 @@ def set_damping_factor(net, niter, errors):
 
 
 def finalize_iteration(net, niter, residual_norm, nonlinear_method, errors, tols, tol_res, vals_old,
-                       solver_vars, pit_names, filtered):
+                       solver_vars, pit_names, filtered, mode=None):
     # Control of damping factor
     if nonlinear_method == "automatic":
         alpha_used = get_net_option(net, "alpha")
@@ -470,9 +471,15 @@ def finalize_iteration(net, niter, residual_norm, nonlinear_method, errors, tols
         for error_increased, var, val, pit, f in zip(errors_increased, solver_vars, vals_old,
                                                   pit_names, filtered):
             if error_increased and not accepted:
-                if f is None:
-                # todo: not working in bidirectional mode as bidirectional is not distinguishing \
-                #  between hydraulics and heat transfer active pit
+                if mode == "bidirectional":
+                    # the hydraulic and the thermal stage work on differently reduced copies of the
+                    # complete tables, drawn anew in every iteration: the old values go back to the
+                    # rows of the complete tables that took part in the respective stage
+                    stage = "heat_transfer" if var.upper() in ("TOUT", "T") else "hydraulics"
+                    rows = np.where(get_lookup(net, pit, "active_" + stage))[0]
+                    net["_pit"][pit][rows if f is None else rows[f],
+                                     globals()[var.upper() + 'INIT']] = val
+                elif f is None:
                     net["_active_pit"][pit][:, globals()[var.upper() + 'INIT']] = val
                 else:
                     net["_active_pit"][pit][f, globals()[var.upper() + 'INIT']] = val
